@@ -15,8 +15,9 @@ CONSTANTS
   B5 = 0
   MaxChain = 1
   FnOwn = 0
+  BFn = 4
   EmitAllUpTo = 0
-  Sel = 80
+  Sel = 120
   KeepGoing = TRUE
 INVARIANT Inv
 CHECK_DEADLOCK FALSE
